@@ -13,7 +13,7 @@ from . import c06
 PROPERTY = 'C07'
 NEED_C = True
 RULE = ('Leg "omp" (real libgomp): Hypothesis draws a collection (2..9 series, one case in 8 with 10..24, lengths 1..6, ndim 1..2, list-of-arrays and '
-        'matrix containers), a block (all forms), a settings subset and a thread count in {1,2,3,4,7,16,33,64} (more '
+        'matrix containers), a block (all forms), a settings subset (window, penalty, psi, inner distance, max_dist, max_step, max_length_diff, use_pruning) and a thread count in {1,2,3,4,7,16,33,64} (more '
         'threads than rows, oversubscription of the 16 cores); distance_matrix(parallel=True, use_c=True) is executed '
         'several times in a separate interpreter (omp_set_num_threads) and compared bitwise with parallel=False from the '
         'same interpreter. Leg "mp": multiprocessing around the Python and the C single-pair routine with pool sizes '
@@ -45,6 +45,11 @@ def _case(draw, kind):
             'inner': draw(st.sampled_from(gen.INNER_NAMES)),
             'container': draw(st.sampled_from(['matrix', 'matrix', 'matrix-F', 'list', 'list-strided'])) if eq
             else draw(st.sampled_from(['list', 'list', 'list-strided']))}
+    # early-abandoning options as well: every option is decoded once and then shared by all rows / workers
+    case['max_dist'] = draw(st.sampled_from([None, None, 0.5, 1.0, 2.0, 4.0]))
+    case['max_step'] = draw(st.sampled_from([None, None, None, 1.0, 3.0]))
+    case['max_length_diff'] = draw(st.sampled_from([None, None, None, 1, 2]))
+    case['use_pruning'] = draw(st.integers(0, 3)) == 0
     m = min(len(x) for x in series) - 1
     case['psi'] = None
     if m >= 1 and draw(st.booleans()):
@@ -68,6 +73,11 @@ def _call_child(case, parallel, use_c, use_mp, **extra):
     fn = 'dtw.distance_matrix' if nd == 1 else 'dtw_ndim.distance_matrix'
     kw = {'block': case['block'], 'compact': True, 'parallel': parallel, 'use_c': use_c, 'use_mp': use_mp,
           'window': case['window'], 'penalty': case['penalty'], 'inner_dist': case['inner'], 'psi': case.get('psi')}
+    for k in ('max_dist', 'max_step', 'max_length_diff'):
+        if case.get(k) is not None:
+            kw[k] = case[k]
+    if case.get('use_pruning'):
+        kw['use_pruning'] = True
     if nd > 1:
         kw['ndim'] = nd
     cont = {'0': {'matrix': 'ndarray', 'matrix-F': 'ndarray-F', 'list-strided': 'list-strided'}.get(case['container'],
